@@ -44,3 +44,8 @@ Definition gen_dshape : dshape :=
 
 Definition gen_sshape : sshape :=
   match sshape_of gen_handleDialSide2 with Some sh => sh | None => mkSShape false true false end.
+
+(** The blocking points of transport.shutdown (after its call has returned),
+    as they are in the source now: what endpointClient.Close waits at before
+    it reaches c.conn.Close() (Sni/ShutdownClose.v). *)
+Definition gen_clpoints : list (list arm) := points_of "transport.shutdown" gen_transport_blocking.
